@@ -88,7 +88,9 @@ func genLikes(s src, st keyStyle, m *sortedMap, n int) []likePattern {
 	rs := []likePattern{"**"}
 	for i := 0; i < n; i++ {
 		x := subKey(s, st, m)
-		if bytes.IndexByte(x, '*') >= 0 {
+		if len(x) == 0 || bytes.IndexByte(x, '*') >= 0 {
+			// x empty (only when the empty key is stored): the patterns would be `*` or the empty
+			// pattern, which the production caller answers before it reaches the bucket
 			continue
 		}
 		switch s.intn(4, "likeKind") {
@@ -220,6 +222,9 @@ type bucketQueries struct {
 	regexps  []*regexp.Regexp
 	limits   []int
 	collects [][]uint32 // value sets for CollectKVs
+	// suggest: further prefixes, each asked with the whole limit grid (0, 1, matches-1, matches,
+	// matches+1, 2^20, MaxInt); the empty prefix is always asked with the whole grid
+	suggest []suggestProbe
 }
 
 func genBucketQueries(t fataler, s src, st keyStyle, m *sortedMap) bucketQueries {
@@ -270,25 +275,15 @@ func checkBucket(t fataler, stage string, b *model.TrieBucket, m *sortedMap, q b
 	if got := sortedCopy(b.GetValues()); !equalU32(got, m.sortedVals()) {
 		t.Fatalf("GetValues() = %v, want %v; %s", got, m.sortedVals(), ctx())
 	}
-	// Suggest: the first `limit` keys with the prefix, ascending
+	// Suggest: exactly the first `limit` names with the prefix, ascending (both directions:
+	// nothing missing, nothing invented, order, limit honoured; see checkSuggest)
 	sugPrefixes := append([][]byte{nil}, q.probes[:min(len(q.probes), 40)]...)
 	for pi, p := range sugPrefixes {
-		limit := q.limits[pi%len(q.limits)]
-		var want []string
-		for _, idx := range m.withPrefix(p) {
-			if len(want) >= limit {
-				break
-			}
-			want = append(want, string(m.keys[idx]))
-		}
-		got := b.Suggest(string(p), limit)
-		if len(got) != len(want) {
-			t.Fatalf("Suggest(%q, %d) = %q, want %q; %s", p, limit, got, want, ctx())
-		}
-		for i := range want {
-			if got[i] != want[i] {
-				t.Fatalf("Suggest(%q, %d) = %q, want %q; %s", p, limit, got, want, ctx())
-			}
+		checkSuggest(t, b, m, p, q.limits[pi%len(q.limits)], ctx)
+	}
+	for _, sp := range append([]suggestProbe{{nil, "empty"}}, q.suggest...) {
+		for _, lc := range limitGrid(len(m.withPrefix(sp.prefix))) {
+			checkSuggest(t, b, m, sp.prefix, lc.limit, ctx)
 		}
 	}
 	// like
@@ -332,7 +327,7 @@ func checkBucket(t fataler, stage string, b *model.TrieBucket, m *sortedMap, q b
 			t.Fatalf("CollectKVs(%v) = %q, want %q; %s", set, res, wantRes, ctx())
 		}
 		for v, k := range wantRes {
-			if res[v] != k {
+			if got, ok := res[v]; !ok || got != k {
 				t.Fatalf("CollectKVs(%v)[%d] = %q, want %q; %s", set, v, res[v], k, ctx())
 			}
 		}
@@ -347,6 +342,8 @@ type dictSpec struct {
 	keys [][]byte // generation order
 	vals []uint32
 	m    *sortedMap
+	// hasEmpty: the dictionary holds the empty key
+	hasEmpty bool
 }
 
 // genDicts draws 1..maxDicts dictionaries with pairwise disjoint keys and distinct values
@@ -375,6 +372,20 @@ func genDicts(t *rapid.T, maxDicts, maxN int) (dicts []dictSpec, st keyStyle, s 
 			}
 		}
 		dicts = append(dicts, dictSpec{keys: keys, vals: vals, m: newSortedMap(keys, vals)})
+	}
+	// one case in four: the empty key (in the property's quantifier; rare to absent in the styles)
+	// joins one of the dictionaries, at any position of the hand-over order
+	if rapid.IntRange(0, 3).Draw(t, "withEmptyKey") == 0 {
+		d := &dicts[rapid.IntRange(0, nd-1).Draw(t, "emptyKeyDict")]
+		at := rapid.IntRange(0, len(d.keys)).Draw(t, "emptyKeyPos")
+		d.keys = append(d.keys, nil)
+		copy(d.keys[at+1:], d.keys[at:])
+		d.keys[at] = []byte{}
+		d.vals = append(d.vals, 0)
+		copy(d.vals[at+1:], d.vals[at:])
+		d.vals[at] = base
+		d.m = newSortedMap(d.keys, d.vals)
+		d.hasEmpty = true
 	}
 	return dicts, st, s, sizeClass
 }
@@ -405,15 +416,21 @@ func TestBucketSortedMap(t *testing.T) {
 		var models []*sortedMap
 		loaded := model.NewTrieBucketWithBlockSize(1) // block size is irrelevant for reading
 		tries := 0
+		emptyKey, excludedBS1 := false, false
 		var bss []int
 		var raw [][]byte
 		for _, d := range dicts {
 			bs := drawBlockSize(t, len(d.keys))
+			if bs == 1 && d.hasEmpty && excludedBlock1() {
+				bs = 2 // known finding: a trie of the empty key alone cannot be built
+				excludedBS1 = true
+			}
+			emptyKey = emptyKey || d.hasEmpty
 			bss = append(bss, bs)
 			data := writeDict(t, d.keys, d.vals, bs)
 			nt, sizes := countTries(t, data)
 			wantTries := (len(d.keys) + bs - 1) / bs
-			if nt != wantTries {
+			if !triesAsExpected(nt, len(d.keys), bs, d.hasEmpty) {
 				t.Fatalf("dictionary of %d keys with block size %d was written as %d tries %v, want %d", len(d.keys), bs, nt, sizes, wantTries)
 			}
 			tries += nt
@@ -463,6 +480,13 @@ func TestBucketSortedMap(t *testing.T) {
 		}
 		if u.hasPrefixPair() {
 			classes = append(classes, "key-is-prefix-of-another")
+		}
+		if emptyKey {
+			_, holder := trieLayout(dicts, bss, nil)
+			classes = append(classes, "has-empty-key", "empty-key|"+triesClass(tries)+"|in-"+posClass(tries, holder))
+		}
+		if excludedBS1 {
+			classes = append(classes, "excluded_known:empty-key-with-block-size-1")
 		}
 		nt := u.hasPrefixPair() || tries >= 2
 		ev.Case("TestBucketSortedMap", fmt.Sprintf("%v|%d|", bss, mergeBS)+u.canon(), nt, classes,
